@@ -724,6 +724,7 @@ func run(c *core.Ctx) {
 	}
 	c.Set("search", summary)
 	crdt.Now = orig
+	partBig(c)
 	bound := 2
 	if !c.Quick() {
 		bound = 3
@@ -874,6 +875,11 @@ func sampleOf(b *backendDef, ops []opDesc, an []string, path []string) interface
 
 func replay(c *core.Ctx, raw json.RawMessage) {
 	if sched.ReplayCase(c, concScenarios(), raw) {
+		return
+	}
+	var bc bigCase
+	if json.Unmarshal(raw, &bc) == nil && bc.Part == "big" {
+		runBig(c, bc)
 		return
 	}
 	var cs caseT
